@@ -113,7 +113,7 @@ inductive Step (E : AEnv) : Sys → Sys → Prop
       Step E s ⟨s.hist, setLoc s p { l with round := r', step := .propose }⟩
   /-- broadcast of a proposal (no guard: safety does not depend on what is proposed). -/
   | propose (s : Sys) (p : Addr) (l : LState) (v : Val) :
-      ¬ E.byz p → s.loc p = l → l.started = true →
+      ¬ E.byz p → s.loc p = l →
       Step E s ⟨addProposal s.hist p l.height l.round v, s.loc⟩
   /-- lines 22–33, `OnTimeoutPropose`: broadcast PREVOTE, step ← prevote. -/
   | prevote (s : Sys) (p : Addr) (l : LState) (id : Option Val) :
